@@ -117,9 +117,44 @@ def overrides(draw, spec, max_n=3, kinds=('cell', 'formula', 'name', 'rect'), va
         b, s, r1, c1, r2, c2 = rect
         return {(b, s, r, c) for r in range(r1, r2 + 1) for c in range(c1, c2 + 1)}
 
+    arr_groups = [set(W.cell_keys(c)) for c in spec['cells'] if 'arr' in c]
+    readers = []   # (rect-or-None, set of cells read) per reference of every formula
+    for c in spec['cells']:
+        if 'f' in c:
+            for kind, x in W.refs_of(c['f'], spec.get('names', [])):
+                if kind == 'cell':
+                    readers.append((None, {x}))
+                elif kind == 'rect':
+                    readers.append((tuple(x), keys_of(x)))
+                elif kind == 'col':
+                    b_, s_, c1_, c2_ = x
+                    readers.append((None, {(b_, s_, r_, cc) for r_ in range(1, 40) for cc in range(c1_, c2_ + 1)}))
+
     def ok(rect):
         k = keys_of(rect)
-        return k <= pop and not (k & arr)
+        # array formulas: every array-formula area the target touches must lie wholly inside it
+        if any((g & k) and not g <= k for g in arr_groups):
+            return False
+        # ... and the cells of those array formulas may be read only through the array area itself or through this
+        # very rectangle (reading a sub-rectangle of an overridden array area returns nested objects on the unchanged
+        # tree: outside the asserted domain, see DESIGN section 10)
+        for g in arr_groups:
+            if g & k:
+                gb, gs = next(iter(g))[0], next(iter(g))[1]
+                grect = (gb, gs, min(x[2] for x in g), min(x[3] for x in g), max(x[2] for x in g), max(x[3] for x in g))
+                for rr, cells_read in readers:
+                    if cells_read & g and rr not in (tuple(rect), grect):
+                        return False
+        unpop = k - pop
+        if unpop:
+            # unpopulated cells of the target may be read only through this very rectangle (otherwise the statement
+            # does not say whether supplying a value populates them for other readers)
+            for rr, cells_read in readers:
+                if cells_read & unpop and rr != tuple(rect):
+                    return False
+            if len(k & pop) == 0:
+                return False
+        return True
     elig = {
         'cell': [c for c in cells if 'f' not in c],
         'formula': [c for c in cells if 'f' in c],
@@ -174,8 +209,13 @@ def ov_labels(spec, ovs):
             nb, ns, a1_, b1_, a2_, b2_ = nm['rect']
             if keys & {(nb, ns, r, c) for r in range(a1_, a2_ + 1) for c in range(b1_, b2_ + 1)}:
                 aliased = True
-        if keys & (errconst | forms):
+        arrk = array_cells(spec)
+        if keys & (errconst | (forms - arrk)):
             lb.add('ov:%s-over-computed-cell' % what)
+        elif keys & arrk:
+            lb.add('ov:%s-over-array-formula' % what)
+        elif keys - W.populated(spec):
+            lb.add('ov:%s-partly-blank' % what)
         elif aliased:
             lb.add('ov:%s-aliased-by-name' % what)
         elif ov[0] == 'name':
